@@ -113,3 +113,20 @@ M("c10_sampling_times_half", ND, "        for _ in range(sampling_times):", "   
 M("c10_reference_not_replaced", ND, "            self._drift_state = \"drift\"\n            self.set_reference(test_batch)", "            self._drift_state = \"drift\"", ["C10", "C02"])
 M("c10_distance_denominator", NP_, "        denom = len(v1)\n", "        denom = np.sum(v1) + np.sum(v2)\n", ["C10"])
 # (c10_decision_ge `>` -> `>=`: equivalent in practice, the threshold is a normal quantile of continuous distances; an exact tie needs std = 0, where ppf is nan)
+
+HD = "menelaus/data_drift/histogram_density_method.py"
+M("c07_bins_from_test", HD, "        self._reference_density = self._build_histograms(self.reference, mins, maxes)\n        test_density = self._build_histograms(X, mins, maxes)\n",
+  "        self._reference_density = self._build_histograms(self.reference, mins, maxes)\n        _b = self._bins\n        self._bins = int(np.floor(np.sqrt(test_n))) if self.total_batches > 3 else _b\n        self._reference_density = self._build_histograms(self.reference, mins, maxes)\n        test_density = self._build_histograms(X, mins, maxes)\n        self._bins = _b if len(test_density[0]) == _b else self._bins\n", ["C07"])
+M("c07_range_reference_only", HD, "            mins.append(np.concatenate((reference_variable, test_variable)).min())", "            mins.append(np.asarray(reference_variable).min())", ["C07"])
+M("c07_dscale_off_by_one", HD, "            d_scale = self.total_batches - self._lambda - 1\n", "            d_scale = self.total_batches - self._lambda\n", ["C07"])
+M("c07_running_total_last_eps", HD, "        self.total_epsilon += self.epsilon[-2]", "        self.total_epsilon += self.epsilon[-1]", ["C07"])
+M("c07_decision_ge_zero", HD, "                if current_epsilon > self.beta:", "                if current_epsilon >= self.beta * 0.98:", ["C07"])
+M("c07_reference_not_replaced", HD, "                    self._drift_state = \"drift\"\n                    self.reference = X\n", "                    self._drift_state = \"drift\"\n", ["C07", "C02"])
+M("c07_feature_info_min", HD, "                                max(self.feature_epsilons)\n", "                                min(self.feature_epsilons)\n", ["C07"])
+M("c07_lambda_stale_again", HD, "        # the epoch starts here, also when the user sets a new reference\n        self._lambda = self.total_batches\n", "", ["C07", "C02"])
+M("c07_boot_not_removed", HD, "        if self.batches_since_reset == 3 and self.detect_batch != 3:\n            self.total_epsilon -= self.epsilon[0]\n            self.epsilon = self.epsilon[1:]", "        if self.batches_since_reset == 3 and self.detect_batch != 3:\n            self.epsilon = self.epsilon[1:]", ["C07"])
+M("c07_tstat_one_sided", HD, "                1 - (self.significance / 2), self.reference_n + test_n - 2", "                1 - (self.significance), self.reference_n + test_n - 2", ["C07", "C17"])
+M("c07_bootstrap_size", HD, "        size = int((1 - (1 / num_subsets)) * self.reference_n)", "        size = int((1 / num_subsets) * self.reference_n)", ["C07"])
+M("c07_hellinger_no_sqrt_norm", HD, "                np.sqrt(test_density[b] / t_length)\n                - np.sqrt(reference_density[b] / r_length)", "                np.sqrt(test_density[b] / r_length)\n                - np.sqrt(reference_density[b] / r_length)", ["C07"])
+M("c07_no_append_reference", HD, "            self.reference = pd.concat([self.reference, X])\n", "            self.reference = pd.concat([self.reference, X]) if self.batches_since_reset != 4 else self.reference\n", ["C07"])
+M("c07_epsilon_signed", HD, "current_epsilon = abs(self.current_distance - self._prev_distance) * 1.0", "current_epsilon = (self.current_distance - self._prev_distance) * 1.0", ["C07"])
